@@ -27,3 +27,4 @@ PROPS["C08"] = dict(
                 "clauses transcribed from the statement, for all reals; MonoTimer.latest is proved two-state (elapsed never decreases, "
                 "expired never reverts) for an arbitrary clock reading.",
 )
+NOT_YET = {}
